@@ -11,7 +11,9 @@ use std::process::{Command, Stdio};
 use std::time::Instant;
 use verif_rt::core::{self as rt, Event, OpK, Outcome};
 
-const VERIF_DIR: &str = "/verif";
+fn verif_dir() -> String {
+    std::env::var("ASIM_DIR").unwrap_or_else(|_| "/verif".to_string())
+}
 
 fn seed_from_env() -> u64 {
     std::env::var("VERIF_SEED")
@@ -133,7 +135,7 @@ pub struct KnownFile {
 }
 
 pub fn load_known() -> KnownFile {
-    match std::fs::read_to_string(format!("{}/known_findings.json", VERIF_DIR)) {
+    match std::fs::read_to_string(format!("{}/known_findings.json", verif_dir())) {
         Ok(t) => serde_json::from_str(&t).unwrap_or_default(),
         Err(_) => KnownFile::default(),
     }
@@ -225,7 +227,7 @@ pub fn cmd_run(args: &[String]) -> i32 {
     println!("asim: property={} tier={} VERIF_SEED={}", prop, tier, seed);
     let t0 = Instant::now();
     let b = budget(&prop, thorough);
-    let outdir = format!("{}/replays", VERIF_DIR);
+    let outdir = format!("{}/replays", verif_dir());
     let _ = std::fs::create_dir_all(&outdir);
     let sums = match run_workers(&prop, &tier, seed, &b, &outdir) {
         Ok(s) => s,
@@ -417,7 +419,7 @@ pub fn cmd_run(args: &[String]) -> i32 {
             "a clean batch is evidence, not proof: schedules and fault sequences are sampled"
         ]
     });
-    let evdir = format!("{}/evidence", VERIF_DIR);
+    let evdir = format!("{}/evidence", verif_dir());
     let _ = std::fs::create_dir_all(&evdir);
     let evpath = format!("{}/{}.json", evdir, prop);
     if let Err(e) = std::fs::write(&evpath, serde_json::to_string_pretty(&evidence).unwrap()) {
@@ -465,7 +467,7 @@ pub fn cmd_selftest(args: &[String]) -> i32 {
     let prop = args.get(1).cloned().unwrap_or_else(|| "C01".into());
     let execs: u64 = args.get(2).and_then(|s| s.parse().ok()).unwrap_or(2000);
     let seed = seed_from_env();
-    let outdir = format!("{}/replays", VERIF_DIR);
+    let outdir = format!("{}/replays", verif_dir());
     let b = Budget {
         workers: 8,
         execs_per_worker: execs,
